@@ -203,7 +203,7 @@ static void on_signal(int sig)
 }
 
 /* ------------------------------------------------------------------ dispatch */
-static const op_t *tables[] = { ops_basic, ops_mul, ops_div, ops_bit, ops_alias, ops_conv, ops_q, ops_hist, ops_radix, NULL };
+static const op_t *tables[] = { ops_basic, ops_mul, ops_div, ops_bit, ops_alias, ops_conv, ops_q, ops_hist, ops_radix, ops_gcd, NULL };
 
 static op_fn lookup(const char *name)
 {
@@ -222,7 +222,8 @@ int main(int argc, char **argv)
   static char obuf[1 << 20];
   setvbuf(stdout, obuf, _IOFBF, sizeof obuf);
   mp_set_memory_functions(rec_alloc, rec_realloc, rec_free);
-  signal(SIGSEGV, on_signal); signal(SIGFPE, on_signal); signal(SIGABRT, on_signal); signal(SIGBUS, on_signal); signal(SIGILL, on_signal);
+  signal(SIGSEGV, on_signal); signal(SIGFPE, on_signal); signal(SIGABRT, on_signal); signal(SIGBUS, on_signal); signal(SIGILL, on_signal); signal(SIGALRM, on_signal);
+  unsigned case_timeout = getenv("VERIF_CASE_TIMEOUT") ? (unsigned) atoi(getenv("VERIF_CASE_TIMEOUT")) : 120;
   while ((len = getline(&line, &cap, stdin)) >= 0) {
     cur_line++;
     while (len > 0 && (line[len-1] == '\n' || line[len-1] == '\r')) line[--len] = 0;
@@ -236,10 +237,12 @@ int main(int argc, char **argv)
     if (ac == 0) continue;
     fprintf(OUT, "%ld", cur_line);
     first_tok = 0;
+    alarm(case_timeout);                 /* a case that hangs is reported (signal 14), not waited for */
     op_fn f = lookup(av[0]);
     long live0 = live_blocks; alloc_errors = 0;
     if (!f) outs("UNKNOWN-OP");
     else f(ac, av);
+    alarm(0);
     if (live_blocks != live0) { outs("LEAK"); outl(live_blocks - live0); }
     if (alloc_errors) { outs("ALLOC-CONTRACT"); outl(alloc_errors); }
     if (!all_redzones_ok()) outs("HEAP-REDZONE");
